@@ -271,7 +271,8 @@ fn twin_history(cfg: &Cfg, h: u64) -> (&'static str, String, Vec<String>, Vec<St
             (coll, format!("hint={} twin_hint={}", hint, hint_b), pre.iter().map(|o| o.line()).collect(), suf.iter().map(|o| o.line()).collect())
         }
         "SegExpTree" => {
-            let ((lo, hi), pre) = seg_suites::gen_history(&mut rng, h / 7, if variant == 0 { 0 } else if small { 16 } else { 60 });
+            let hh = if (h / 7) % 13 == 7 { h / 7 + 1 } else { h / 7 };
+            let ((lo, hi), pre) = seg_suites::gen_history(&mut rng, hh, if variant == 0 { 0 } else if small { 16 } else { 60 });
             // same domain for the suffix: regenerate with the same domain selector
             let mut r2 = rng.derive(9);
             let (_, mut suf) = seg_suites::gen_history(&mut r2, 0, if small { 14 } else { 40 });
@@ -449,6 +450,8 @@ pub fn export_case(coll: &str, n: usize, order: &str, expired_every: usize, seed
         }
     };
     let live = keys.iter().filter(|&&k| exp_of(k) > 10).count();
+    let n_keys = n;
+    let mut content_mismatch: Option<usize> = None;
     let mut n = n;
     let mut arena_slots = 0usize;
     let (cap, len, maxreq, first, last) = if coll == "tree" {
@@ -471,6 +474,7 @@ pub fn export_case(coll: &str, n: usize, order: &str, expired_every: usize, seed
         let v = t.into_ordered_vec(10);
         ctx::phase(1);
         let (maxreq, _, _) = alloc::region_end();
+        content_mismatch = export_content_mismatch(&v, n_keys, &exp_of);
         (v.capacity(), v.len(), maxreq, v.first().copied(), v.last().copied())
     } else {
         let mut t = KeyExpList::<KKey, i32, u64>::new(8);
@@ -483,6 +487,7 @@ pub fn export_case(coll: &str, n: usize, order: &str, expired_every: usize, seed
         let v = t.into_ordered_vec(10);
         ctx::phase(1);
         let (maxreq, _, _) = alloc::region_end();
+        content_mismatch = export_content_mismatch(&v, n_keys, &exp_of);
         (v.capacity(), v.len(), maxreq, v.first().copied(), v.last().copied())
     };
     rep.evaluations += 1;
@@ -492,6 +497,9 @@ pub fn export_case(coll: &str, n: usize, order: &str, expired_every: usize, seed
     rep.counters.max("max_single_allocation_request_bytes", maxreq as u64);
     if len != live {
         return Err(Fail::new("export:wrong-length", format!("export of {} entries ({} live) returned {} values", n, live, len)));
+    }
+    if let Some(bad) = content_mismatch {
+        return Err(Fail::new("export:wrong-order-or-entry", format!("export of {} entries: position {} holds a value that is not the {}-th live key", n, bad, bad)));
     }
     if live > 0 && (first.is_none() || first > last) {
         return Err(Fail::new("export:wrong-order", "export is not in key order".to_string()));
@@ -506,6 +514,20 @@ pub fn export_case(coll: &str, n: usize, order: &str, expired_every: usize, seed
         return Err(Fail::new("export:allocation", format!("into_ordered_vec requested a single allocation of {} bytes for {} stored entries", maxreq, n)));
     }
     Ok(())
+}
+
+/// the export must be exactly the live keys (value == key) in increasing order
+fn export_content_mismatch(v: &[u64], n_keys: usize, exp_of: &dyn Fn(i32) -> i32) -> Option<usize> {
+    let mut i = 0usize;
+    for k in 0..n_keys as i32 {
+        if exp_of(k) > 10 {
+            if v.get(i).copied() != Some(k as u64) {
+                return Some(i);
+            }
+            i += 1;
+        }
+    }
+    None
 }
 
 pub fn export_sizes(max_n: usize) -> Vec<usize> {
@@ -715,6 +737,184 @@ fn big_set_handles(t: &SetTree<SKey, SVal>, n: usize, sorted: &[i32], rng: &mut 
     Ok(())
 }
 
+/// C01 / C06 on a large expiring-key tree: every entry live, probes at both ends of the key range
+/// (deepest after ordered insertion) and a random sample, all four query kinds
+fn big_kquery_case(n: usize, order: &str, hint: usize, rng: &mut Rng, rep: &mut Report) -> Result<(), Fail> {
+    let keys = order_keys(n, order, rng);
+    let mut t = KeyExpTree::<KKey, i32, u64>::new(hint);
+    for (i, &k) in keys.iter().enumerate() {
+        ctx::set(n as u64, i as u64);
+        // keys 2k+1 so that gap probes exist; half of the entries outlive the query time by one tick
+        t.insert(KKey { k: 2 * k + 1, exp: if k % 2 == 0 { 11 } else { 1000 }, tag: 0 }, k as u64 + 1, 0);
+    }
+    let sorted: Vec<i32> = (0..n as i32).collect();
+    let tq = 10;
+    for p in big_probes(n, &sorted, rng) {
+        for q in [2 * p, 2 * p + 1, 2 * p + 2] {
+            // reference: stored keys are the odd numbers 1..=2n-1, all live at time 10
+            let pred = |strict: bool| -> u64 {
+                let lim = if strict { q - 1 } else { q };
+                if lim < 1 {
+                    return u64::MAX;
+                }
+                let k = ((lim - 1) / 2).min(n as i32 - 1); // index of the greatest odd key <= lim
+                k as u64 + 1
+            };
+            let probe = KKey { k: q, exp: i32::MAX, tag: 1 };
+            rep.evaluations += 4;
+            rep.counters.add("big_key_queries", 4);
+            let fl = t.first_less(tq, u64::MAX, probe);
+            if fl != pred(true) {
+                return Err(Fail::new("first_less:wrong-entry", format!("n={} first_less(t={}, probe={}) returned {}, reference {}", n, tq, q, fl as i64, pred(true) as i64)));
+            }
+            let fle = t.first_less_or_equal(tq, u64::MAX, probe);
+            if fle != pred(false) {
+                return Err(Fail::new("first_less_or_equal:wrong-entry", format!("n={} first_less_or_equal(t={}, probe={}) returned {}, reference {}", n, tq, q, fle as i64, pred(false) as i64)));
+            }
+            let fb = t.first_less_or_equal_by(tq, u64::MAX, |s: KKey| s.k.cmp(&q));
+            if fb != pred(false) {
+                return Err(Fail::new("first_less_or_equal_by:wrong-entry", format!("n={} first_less_or_equal_by(t={}, probe={}) returned {}, reference {}", n, tq, q, fb as i64, pred(false) as i64)));
+            }
+            let want = if q % 2 == 1 && q >= 1 && q <= 2 * n as i32 - 1 { Some((q as u64 - 1) / 2 + 1) } else { None };
+            let got = t.get_value(tq, probe);
+            if got != want {
+                return Err(Fail::new(if want.is_some() { "get:missed-live" } else { "get:found-dead" }, format!("n={} get_value(t={}, {}) returned {:?}, reference {:?}", n, tq, q, got, want)));
+            }
+        }
+    }
+    // one tick later the even-indexed half has expired: the same probes against the other half
+    let tq = 11;
+    for p in big_probes(n, &sorted, rng).into_iter().take(400) {
+        let q = 2 * p + 1;
+        let probe = KKey { k: q, exp: i32::MAX, tag: 1 };
+        // greatest odd-indexed k with 2k+1 <= q
+        let mut k = p.min(n as i32 - 1);
+        if k >= 0 && k % 2 == 0 {
+            k -= 1;
+        }
+        let want = if p < 0 || k < 0 { u64::MAX } else { k as u64 + 1 };
+        let fle = t.first_less_or_equal(tq, u64::MAX, probe);
+        rep.evaluations += 1;
+        rep.counters.inc("big_key_queries");
+        if fle != want {
+            return Err(Fail::new("first_less_or_equal:wrong-entry", format!("n={} first_less_or_equal(t={}, probe={}) returned {}, reference {}", n, tq, q, fle as i64, want as i64)));
+        }
+    }
+    Ok(())
+}
+
+/// C11 / C12 on large trees: clear() of a tall tree must release every slot, a cleared tree must
+/// behave like a fresh one, and fill / clear cycles must not grow the arena
+fn big_clear_case(coll: &str, n: usize, order: &str, hint: usize, rng: &mut Rng, rep: &mut Report) -> Result<(), Fail> {
+    let keys = order_keys(n, order, rng);
+    let sample: Vec<i32> = big_probes(n, &(0..n as i32).collect::<Vec<_>>(), rng).into_iter().take(300).collect();
+    let refill: Vec<i32> = keys.iter().copied().take(3000.min(n)).collect();
+    macro_rules! after_clear {
+        ($snap:expr, $cycle:expr) => {{
+            let s = $snap;
+            rep.evaluations += 1;
+            rep.counters.inc("big_clears_checked");
+            snap::check_slots(&s).map_err(|e| Fail::new("slots-clear", format!("n={} cycle {}: after clear: {}", n, $cycle, e.chars().take(200).collect::<String>())))?;
+            if s.root != i_tree::EMPTY_REF || s.free.len() != s.slots.len() - 1 {
+                return Err(Fail::new("slots-clear", format!("n={} cycle {}: after clear: root {} and {} of {} slots free", n, $cycle, s.root as i32, s.free.len(), s.slots.len() - 1)));
+            }
+            let bound = 4 * (n + 1) + hint.max(8);
+            rep.counters.max("max_buffer_len_seen", s.slots.len() as u64);
+            if s.slots.len() > bound {
+                return Err(Fail::new("slots-bound", format!("n={} cycle {}: arena has {} slots for a peak population of {} (bound {})", n, $cycle, s.slots.len(), n, bound)));
+            }
+        }};
+    }
+    match coll {
+        "maptree" => {
+            let mut t = MapTree::<MKey, MVal>::new(hint);
+            for cycle in 0..3 {
+                for &k in &keys {
+                    t.insert(MKey(k), MVal::new(k, k as u64));
+                }
+                t.clear();
+                after_clear!(t.verif_snapshot(|k, _| k.0), cycle);
+                if !t.is_empty() {
+                    return Err(Fail::new("after-clear:differs-from-fresh", "is_empty() is false after clear".to_string()));
+                }
+            }
+            let mut fresh = MapTree::<MKey, MVal>::new(8);
+            for &k in &refill {
+                t.insert(MKey(k), MVal::new(k, k as u64));
+                fresh.insert(MKey(k), MVal::new(k, k as u64));
+            }
+            for &p in &sample {
+                let a = t.get_value(MKey(p)).map(|v| v.id);
+                let b = fresh.get_value(MKey(p)).map(|v| v.id);
+                let (ha, hb) = (t.first_index_less(MKey(p)), fresh.first_index_less(MKey(p)));
+                let da = if ha == i_tree::EMPTY_REF { None } else { Some(t.value_by_index(ha).key_copy) };
+                let db = if hb == i_tree::EMPTY_REF { None } else { Some(fresh.value_by_index(hb).key_copy) };
+                rep.evaluations += 1;
+                if a != b || da != db {
+                    return Err(Fail::new("after-clear:differs-from-fresh", format!("n={} probe {}: cleared tree answers {:?}/{:?}, fresh tree {:?}/{:?}", n, p, a, da, b, db)));
+                }
+            }
+        }
+        "settree" => {
+            let mut t = SetTree::<SKey, SVal>::new(hint);
+            for cycle in 0..3 {
+                for &k in &keys {
+                    t.insert(SVal::new(k, k as u64));
+                }
+                t.clear();
+                after_clear!(t.verif_snapshot(|v| v.key.0), cycle);
+                if !t.is_empty() {
+                    return Err(Fail::new("after-clear:differs-from-fresh", "is_empty() is false after clear".to_string()));
+                }
+            }
+            let mut fresh = SetTree::<SKey, SVal>::new(8);
+            for &k in &refill {
+                t.insert(SVal::new(k, k as u64));
+                fresh.insert(SVal::new(k, k as u64));
+            }
+            for &p in &sample {
+                let a = t.get_value(&SKey(p)).map(|v| v.id);
+                let b = fresh.get_value(&SKey(p)).map(|v| v.id);
+                rep.evaluations += 1;
+                if a != b {
+                    return Err(Fail::new("after-clear:differs-from-fresh", format!("n={} probe {}: cleared tree answers {:?}, fresh tree {:?}", n, p, a, b)));
+                }
+            }
+        }
+        _ => {
+            let mut t = KeyExpTree::<KKey, i32, u64>::new(hint);
+            for cycle in 0..3 {
+                for &k in &keys {
+                    t.insert(KKey { k, exp: 1000, tag: 0 }, k as u64, 0);
+                }
+                t.clear();
+                after_clear!(t.verif_snapshot(|k, _| k.k), cycle);
+                if !t.is_empty() {
+                    return Err(Fail::new("after-clear:differs-from-fresh", "is_empty() is false after clear".to_string()));
+                }
+            }
+            let mut fresh = KeyExpTree::<KKey, i32, u64>::new(8);
+            for &k in &refill {
+                t.insert(KKey { k, exp: 50, tag: 0 }, k as u64, 0);
+                fresh.insert(KKey { k, exp: 50, tag: 0 }, k as u64, 0);
+            }
+            for &p in &sample {
+                let probe = KKey { k: p, exp: i32::MAX, tag: 1 };
+                let a = (t.get_value(1, probe), t.first_less_or_equal(1, u64::MAX, probe));
+                let b = (fresh.get_value(1, probe), fresh.first_less_or_equal(1, u64::MAX, probe));
+                rep.evaluations += 1;
+                if a != b {
+                    return Err(Fail::new("after-clear:differs-from-fresh", format!("n={} probe {}: cleared tree answers {:?}, fresh tree {:?}", n, p, a, b)));
+                }
+            }
+            if t.into_ordered_vec(1) != fresh.into_ordered_vec(1) {
+                return Err(Fail::new("after-clear:differs-from-fresh", format!("n={}: export of the cleared and refilled tree differs from a fresh one", n)));
+            }
+        }
+    }
+    Ok(())
+}
+
 pub fn big_case(coll: &str, n: usize, order: &str, hint: usize, seed: u64, rep: &mut Report) -> Result<(), Fail> {
     big_case_with(coll, n, order, hint, seed, rep, "")
 }
@@ -723,6 +923,12 @@ pub fn big_case(coll: &str, n: usize, order: &str, hint: usize, seed: u64, rep: 
 pub fn big_case_with(coll: &str, n: usize, order: &str, hint: usize, seed: u64, rep: &mut Report, probes: &str) -> Result<(), Fail> {
     let judge_structure = probes.is_empty();
     let mut rng = Rng::new(seed).derive(n as u64 ^ 0xB16);
+    if probes == "clear" {
+        return big_clear_case(coll, n, order, hint, &mut rng, rep);
+    }
+    if probes == "kquery" {
+        return big_kquery_case(n, order, hint, &mut rng, rep);
+    }
     let keys = order_keys(n, order, &mut rng);
     let mut del = keys.clone();
     rng.shuffle(&mut del);
@@ -894,10 +1100,13 @@ pub fn suite_big(cfg: &Cfg, rep: &mut Report) {
                 }
                 let hint = [0usize, 1, 8, 9, 300][(idx % 5) as usize];
                 let probes = cfg.str_or("probes", "").to_string();
-                if !probes.is_empty() && coll == "keytree" {
+                if (probes == "handle" || probes == "steps") && coll == "keytree" {
                     continue;
                 }
                 if probes == "steps" && coll != "settree" {
+                    continue;
+                }
+                if probes == "kquery" && coll != "keytree" {
                     continue;
                 }
                 let line = format!("#big coll={} n={} order={} hint={} seed={} probes={}", coll, n, order, hint, cfg.seed, probes);
